@@ -692,15 +692,17 @@ func (x *actorSystem) localSend(ctx context.Context, id *GrainIdentity, message 
 			putErrorChannel(errCh)
 			return nil, err
 		case <-ctx.Done():
-			// The grain goroutine may still be processing and could send
-			// on the channels later. Mark response as closed so
-			// Response()/NoErr() CAS guards prevent late sends, and do
-			// NOT return channels to the pool -- let them be GC'd.
-			grainContext.responseClosed.Store(true)
+			// The grain may still be processing and could send on the
+			// channels later: do NOT return them to the pool -- let them
+			// be GC'd, a late reply then lands where nobody reads it.
+			// grainContext must not be touched here: the grain mailbox
+			// recycles a context one dequeue after handing it out, so it
+			// may already have been rebuilt for another request, and a
+			// responseClosed.Store(true) would make that request's reply
+			// be dropped.
 			timers.Put(timer)
 			return nil, errors.Join(ctx.Err(), gerrors.ErrRequestTimeout)
 		case <-timer.C:
-			grainContext.responseClosed.Store(true)
 			timers.Put(timer)
 			return nil, gerrors.ErrRequestTimeout
 		}
